@@ -2,7 +2,7 @@
 from harness.common import Case, hx, unhx, toks_str, tok_str, parse_tok, Fields
 from harness import gen as G
 
-KINDS = 'ms'
+KINDS = 'gms'
 RULE = ('every named opcode singly; pushes of every length 0..600 and 75/76/255/256/65535/65536 and random up to 70000; '
         'integers 0..2^63 at byte-length boundaries; random token sequences of 0..60 tokens; both values of has_segwit; '
         'arbitrary byte strings (fallback paths) for model correspondence only. non-trivial: >= 2 tokens or a PUSHDATA form')
@@ -18,7 +18,8 @@ def script_cases(ctx, toks, tag):
     from bitcoinutils.script import Script
     ts = toks_str(toks)
     nt = nontrivial(toks)
-    yield Case(f'asm {ts}', 'ms', nontrivial=nt, tag=tag)
+    # assembly also through the generated (translated) Script.to_bytes, interpreted: scripts below 3000 hex characters
+    yield Case(f'asm {ts}', 'gms' if len(ts) < 3000 else 'ms', nontrivial=nt, tag=tag)
     try:
         raw = Script(list(toks)).to_bytes()
     except Exception:
